@@ -53,6 +53,7 @@ type step struct {
 	N string `json:"n"`
 	C string `json:"c"`
 	X string `json:"x"`
+	W string `json:"w"` // cause of a Close: peer | cmd | sweep | kick
 }
 
 type behaviour struct {
@@ -228,6 +229,56 @@ func newCluster(be string, nodes, clients []string) (*cluster, error) {
 		cl.closers = append(cl.closers, func() { pool.Close() })
 	}
 	return cl, nil
+}
+
+// closeBy closes connection c of node n the way the given cause does in the server; every path
+// ends with the read loop over and SessionManager.CloseConnection done (srvkit Reap/Disconnect).
+// Returns a reason when the cause is not applicable to the connection as the server holds it.
+func (cl *cluster) closeBy(n string, c *srvkit.Conn, x, why string) string {
+	s := cl.srv[n]
+	switch why {
+	case "", "-", "peer":
+		// the peer closed the socket (or the server had closed it and the read loop now ends):
+		// adapter cleanupConnection -> CloseConnection
+		c.Disconnect()
+	case "cmd":
+		// the client announces its departure: JsonCommand Disconnect -> handleDisconnectCommand ->
+		// CloseConnection; then the socket goes away
+		if c.Closed() {
+			return "disconnect command on a closed transport"
+		}
+		if _, _, err := c.Send(&packet.TransferPacket{PacketType: packet.JsonCommand, CommandPacket: &packet.CommandPacket{CommandType: packet.Disconnect, CommandId: "bye", CommandBody: "{}"}}); err != nil {
+			return "disconnect command: " + err.Error()
+		}
+		c.Disconnect() // the socket goes away, the read loop ends
+	case "kick":
+		// KickOldControlConnection(client, "") removes the registry entry and closes the stream;
+		// the read loop ends -> CloseConnection
+		if cc := s.SM.GetControlConnectionByClientID(cl.creds[x].id); cc == nil || cc.ConnID != c.ID {
+			return "kick: the registry does not hold this connection for the client"
+		}
+		s.Kick(cl.creds[x].id, "")
+		c.Disconnect() // the read loop ends on the closed stream: cleanupConnection -> CloseConnection
+	case "sweep":
+		// the client went silent: its last activity is an hour old, everybody else's is recent, and
+		// the stale sweep runs (ClientRegistry.CleanupStale with the callback cleanupStaleConnections
+		// passes: entry removed FIRST, then SessionManager.CloseConnection, then the stream is closed)
+		cc := s.SM.GetClientRegistry().GetByConnID(c.ID)
+		if cc == nil {
+			return "sweep: connection is not in the control registry"
+		}
+		cc.LastActiveAt = time.Now().Add(-time.Hour)
+		swept := s.SM.GetClientRegistry().CleanupStale(30*time.Minute, func(connID string, clientID int64, authenticated bool) error {
+			return s.SM.CloseConnection(connID)
+		})
+		if swept != 1 {
+			return fmt.Sprintf("sweep removed %d connections", swept)
+		}
+		c.Disconnect() // the read loop ends on the closed stream (CloseConnection a second time is a no-op)
+	default:
+		return "unknown close cause " + why
+	}
+	return ""
 }
 
 func (cl *cluster) observe() fw.Event {
@@ -406,6 +457,29 @@ func drive(env *fw.Env, b fw.Behaviour) *fw.Trace {
 				}
 			}
 			ev["evicted"] = evicted
+		case "AuthLost":
+			// the credential check passes but the response cannot be delivered: the peer is gone.
+			// Phase 1 (challenge) is answered normally; the transport dies at the first byte the
+			// server tries to write in answer to phase 2.
+			c := cl.conns[s.C]
+			if c == nil || c.Closed() {
+				return &fw.Trace{Status: fw.Unrealisable, Note: "handshake on a connection the server closed"}
+			}
+			cr := cl.creds[s.X]
+			ch, _, err := c.Phase1(cr.id, "control")
+			if err != nil || ch == "" {
+				return &fw.Trace{Status: fw.DriverError, Note: fmt.Sprintf("step %d: no challenge for %s on %s (err=%v)", i, s.X, s.C, err)}
+			}
+			c.T.BeforeNextWrite(func() { c.T.Close() })
+			body, _ := json.Marshal(&packet.HandshakeRequest{ClientID: cr.id, Version: "3.0", Protocol: "tcp", ConnectionType: "control",
+				ChallengeResponse: srvkit.HMAC(cr.secret, ch)})
+			out, herr, err := c.Send(&packet.TransferPacket{PacketType: packet.Handshake, Payload: body})
+			if err != nil {
+				return &fw.Trace{Status: fw.DriverError, Note: "AuthLost: " + err.Error()}
+			}
+			if herr == nil || len(out) != 0 || !c.Closed() {
+				return &fw.Trace{Status: fw.DriverError, Note: fmt.Sprintf("step %d: the response write did not fail (herr=%v, %d packets written)", i, herr, len(out))}
+			}
 		case "HB":
 			c := cl.conns[s.C]
 			if c == nil || c.Closed() {
@@ -419,8 +493,13 @@ func drive(env *fw.Env, b fw.Behaviour) *fw.Trace {
 			if c == nil {
 				return &fw.Trace{Status: fw.DriverError, Note: "close of unknown connection " + s.C}
 			}
-			c.Disconnect()
-			ev["ev"] = "Close"
+			if why := cl.closeBy(s.N, c, s.X, s.W); why != "" {
+				return &fw.Trace{Status: fw.Unrealisable, Note: why}
+			}
+			if _, still := cl.srv[s.N].SM.GetConnection(c.ID); still || !c.Closed() {
+				return &fw.Trace{Status: fw.DriverError, Note: fmt.Sprintf("step %d: connection %s survived close by %s", i, s.C, s.W)}
+			}
+			ev["ev"], ev["why"] = "Close", s.W
 		default:
 			return &fw.Trace{Status: fw.DriverError, Note: "unknown step " + s.A}
 		}
@@ -443,7 +522,8 @@ func drive(env *fw.Env, b fw.Behaviour) *fw.Trace {
 
 var seenBeh = map[string]bool{}
 
-var allFixes = `{"ptrShape", "condIdxDelete", "hbRefresh"}`
+var allFixes = `{"ptrShape", "condIdxDelete", "hbRefresh", "successOnly"}`
+var firstThree = `{"ptrShape", "condIdxDelete", "hbRefresh"}` // repaired by patches C08-1..3
 
 // exhaustive design check: every behaviour first fixes the backend shape (ptr/str/map) and the
 // set of repairs, so one TLC run covers the as-is and the repaired code (thorough: all 8 subsets)
@@ -465,9 +545,23 @@ const (
 )
 
 var (
-	asIsAndRepaired = "{{}, " + allFixes + "}"
-	everySubset     = `{{}, {"ptrShape"}, {"condIdxDelete"}, {"hbRefresh"}, {"ptrShape", "condIdxDelete"}, {"ptrShape", "hbRefresh"}, {"condIdxDelete", "hbRefresh"}, ` + allFixes + "}"
+	asIsAndRepaired = "{{}, " + firstThree + ", " + allFixes + "}"
+	everySubset     = subsets([]string{"ptrShape", "condIdxDelete", "hbRefresh", "successOnly"})
 )
+
+func subsets(names []string) string {
+	var out []string
+	for m := 0; m < 1<<len(names); m++ {
+		var el []string
+		for i, n := range names {
+			if m&(1<<i) != 0 {
+				el = append(el, `"`+n+`"`)
+			}
+		}
+		out = append(out, "{"+strings.Join(el, ", ")+"}")
+	}
+	return "{" + strings.Join(out, ", ") + "}"
+}
 
 func main() {
 	fw.Main(&fw.Property{
@@ -482,33 +576,44 @@ func main() {
 					mcJob("mc:1x4", two, 4, `{"X"}`, allShapes, asIsAndRepaired),
 				}
 			}
-			// quick: the map shape takes the same branch of the model as the string shape
-			return []fw.TLCJob{mcJob("mc:1x3", two, 3, `{"X"}`, `{"ptr", "str"}`, asIsAndRepaired)}
+			// quick: the string shape with the three repairs of C08-1..3 and with all four (the code
+			// without any repair, the pointer and map shapes: thorough; their routes to a violation
+			// are also driven from gen:dev)
+			return []fw.TLCJob{mcJob("mc:1x3", two, 3, `{"X"}`, `{"str"}`, "{"+firstThree+", "+allFixes+"}")}
 		},
 		// Histories are generated from the as-is model: event enabledness does not depend on the
 		// store, and the as-is state graph distinguishes more states (deviation flags), so its
 		// transition cover contains the repaired model's.
 		GenJobs: func(env *fw.Env) []fw.TLCJob {
+			// gen:lost / gen:close are targeted covers (from the repaired model, whose store keeps a
+			// heart-beating client findable): every behaviour of gen:lost contains a handshake whose
+			// response is undeliverable while the client is connected elsewhere, every behaviour of
+			// gen:close ends with a close by command / kick / stale sweep of the client's last
+			// connection while the lookup still found it.
 			if env.Tier == "thorough" {
 				return []fw.TLCJob{
 					genJob("gen:dev", two, 3, `{"X", "Y"}`, 3, 8, `{"str", "ptr"}`, "{}", "dev"),
-					genJob("gen:asis", two, 3, `{"X", "Y"}`, 3, 8, `{"str"}`, "{}", "all"),
+					genJob("gen:lost", two, 3, `{"X", "Y"}`, 3, 8, `{"str"}`, allFixes, "lost"),
+					genJob("gen:close", two, 3, `{"X", "Y"}`, 3, 8, `{"str"}`, allFixes, "close"),
+					genJob("gen:asis", two, 3, `{"X", "Y"}`, 3, 7, `{"str"}`, "{}", "all"),
 					genJob("gen:asis-ptr", two, 3, `{"X"}`, 3, 8, `{"ptr"}`, "{}", "all"),
-					genJob("gen:3nodes", three, 3, `{"X"}`, 3, 8, `{"str"}`, "{}", "all"),
+					genJob("gen:3nodes", three, 3, `{"X"}`, 3, 7, `{"str"}`, "{}", "all"),
 				}
 			}
 			return []fw.TLCJob{
-				genJob("gen:dev", two, 3, `{"X"}`, 3, 8, `{"str", "ptr"}`, "{}", "dev"),
-				genJob("gen:asis", two, 3, `{"X"}`, 3, 8, `{"str"}`, "{}", "all"),
+				genJob("gen:dev", two, 3, `{"X"}`, 3, 7, `{"str", "ptr"}`, "{}", "dev"),
+				genJob("gen:lost", two, 3, `{"X"}`, 3, 8, `{"str"}`, allFixes, "lost"),
+				genJob("gen:close", two, 3, `{"X"}`, 3, 8, `{"str"}`, allFixes, "close"),
+				genJob("gen:asis", two, 3, `{"X"}`, 3, 7, `{"str"}`, "{}", "all"),
 				genJob("gen:two", two, 2, `{"X", "Y"}`, 2, 7, `{"str"}`, "{}", "all"),
 			}
 		},
 		MaxBehSrc: func(env *fw.Env, src string) int {
 			// counts are per generation job AFTER expansion to the three wirings
 			if env.Tier == "thorough" {
-				return 600
+				return 480
 			}
-			return 60
+			return 45
 		},
 		Expand: func(env *fw.Env, src string, raw json.RawMessage) []json.RawMessage {
 			var steps []step
@@ -548,12 +653,13 @@ func main() {
 			}
 			return n >= 3
 		},
-		Rule: "one behaviour per transition (state, session event) of the bounded ConnState state graph (shortest history to the state + the event), plus every model-predicted route to a deviation (gen:dev); each replayed on the memory, Redis and tiered wirings; non-trivial = at least 3 session events",
+		Rule: "one behaviour per transition (state, session event incl. undeliverable handshakes and closes by cause peer/cmd/sweep/kick) of the bounded ConnState state graph (shortest history to the state + the event), plus targeted covers: every model-predicted route to a deviation (gen:dev), undeliverable handshakes while connected elsewhere (gen:lost), closes of the last connection by command/kick/sweep (gen:close); each replayed on the memory, Redis and tiered wirings; non-trivial = at least 3 session events",
 		Assumptions: []string{
 			"nodes are SessionManager assemblies in one process sharing a store (srvkit); client identities are provisioned on every node's config repository",
 			"registration lifetime 500 ms = 2 model ticks of 300 ms; behaviours whose steps overran the margin are discarded as inconclusive",
 			"miniredis stands in for Redis; its virtual clock is advanced together with the real sleep",
 			"a peer listener per node stands in for CrossNodeListener to make the forwarding decision of SendCommandToClient observable",
+			"an undeliverable handshake response is a transport that dies at the server's first write after the challenge phase; a heartbeat timeout is the victim's LastActiveAt moved one hour back followed by ClientRegistry.CleanupStale with the sweep's CloseConnection callback; every close cause ends with the read loop over (CloseConnection)",
 		},
 		TrustedBase: []string{"TLC", "spec/ConnStateTrace.tla as the reading of the statement", "srvkit (server assembly with fake transports)", "miniredis"},
 	})
@@ -610,6 +716,64 @@ func selfTest(env *fw.Env, acc []*fw.Trace) []*fw.Trace {
 			c.Events = append(c.Events, ne)
 		}
 		out = append(out, c)
+	}
+	// (2) stale hit after the close of the client's only authenticated connection
+	stale := 0
+	for _, t := range acc {
+		if stale >= 20 {
+			break
+		}
+		authed := map[string]map[string]bool{} // client -> connections it authenticated on
+		closed := map[string]bool{}
+		idx, who, where, conn := -1, "", "", ""
+		for i, e := range t.Events {
+			switch e["ev"] {
+			case "Auth":
+				x := e["x"].(string)
+				if authed[x] == nil {
+					authed[x] = map[string]bool{}
+				}
+				authed[x][e["c"].(string)] = true
+				for _, v := range e["evicted"].([]any) {
+					closed[v.(string)] = true
+				}
+			case "Close":
+				closed[e["c"].(string)] = true
+				x, _ := e["x"].(string)
+				all := len(authed[x]) > 0 && authed[x][e["c"].(string)]
+				for c := range authed[x] {
+					all = all && closed[c]
+				}
+				if all && i+1 < len(t.Events) && t.Events[i+1]["ev"] == "Obs" {
+					idx, who, where, conn = i+1, x, e["n"].(string), e["c"].(string)
+				}
+			}
+		}
+		if idx < 0 {
+			continue
+		}
+		c := &fw.Trace{Status: fw.Realised, Beh: t.Beh}
+		id++
+		c.Beh.ID = id
+		for i, e := range t.Events {
+			if i != idx {
+				c.Events = append(c.Events, e)
+				continue
+			}
+			ne := fw.Event{"ev": "Obs", "routes": e["routes"]}
+			var fs []any
+			for _, f := range e["finds"].([]any) {
+				m := f.(map[string]any)
+				if m["x"] == who {
+					m = map[string]any{"from": m["from"], "x": who, "r": "found", "node": where, "conn": conn}
+				}
+				fs = append(fs, m)
+			}
+			ne["finds"] = fs
+			c.Events = append(c.Events, ne)
+		}
+		out = append(out, c)
+		stale++
 	}
 	return out
 }
